@@ -647,6 +647,11 @@ func (e *Engine) typeAssert(fr *Frame, st *State, ins *ssa.TypeAssert) Val {
 		}
 		res := buildAll(at, out)
 		e.ctx.Assume(implies(okn, e.wfTerm(res, at, st)))
+		if _, isPtr := under(at).(*types.Pointer); isPtr && res.K == KScalar {
+			// standing assumption: interface values do not hold typed nil pointers
+			e.ctx.Assume(implies(okn, not(eq(res.T, "0"))))
+			e.note("interface values are assumed not to hold typed nil pointers")
+		}
 		return Val{K: KTuple, Fs: []Val{res, boolv(okn)}}
 	}
 	e.oblige(st, "safety/assert", ok, pos, "type assertion succeeds", nil)
